@@ -30,6 +30,7 @@ ObsInit == [ seen  |-> << >>,   \* <<r, mid>> -> summary of the request datagram
              bytok |-> << >>,   \* <<r, tok>> -> key of the latest request carrying that token
              invkey |-> << >>,  \* handler invocation -> key of the request it serves
              pend  |-> {},      \* submitted client requests still waiting for their response
+             csent |-> {},      \* <<r, mid, dig>> of the confirmable responses transmitted so far
              win   |-> NoWin,   \* the datagram whose synchronous processing is under way
              bad   |-> {} ]
 
@@ -140,6 +141,8 @@ ObsTxResp(o, e) ==
   ELSE LET key == o.bytok[tk]
            s == o.seen[key]
        IN IF s.nresp >= 1 /\ e.mid = s.rmid /\ e.dig = s.rdig THEN o     \* retransmission of a CON response
+          \* ... or of an earlier one whose token the peer has meanwhile used again
+          ELSE IF e.ty = "CON" /\ <<e.r, e.mid, e.dig>> \in o.csent THEN o
           ELSE IF s.amb THEN o
           ELSE IF s.tok # e.tok THEN o    \* answers a request whose identity has meanwhile been forgotten and reused
           ELSE
@@ -158,7 +161,8 @@ ObsTxResp(o, e) ==
                                          s.ty = "NON" /\ e.ty # "NON", "C10_NonAnsweredNon"),
                                   e.ty = "RST", "C10_ResponseType")
               o3 == FlagIf(o2, s.nresp >= 1, "C10_OneResponse")
-          IN [o3 EXCEPT !.seen[key] = [s EXCEPT !.nresp = @ + 1, !.rmid = e.mid, !.rdig = e.dig,
+          IN [o3 EXCEPT !.csent = IF e.ty = "CON" THEN @ \cup {<<e.r, e.mid, e.dig>>} ELSE @,
+                        !.seen[key] = [s EXCEPT !.nresp = @ + 1, !.rmid = e.mid, !.rdig = e.dig,
                                                !.ack = IF e.ty = "ACK" THEN e.dig ELSE @,
                                                !.nack = IF e.ty = "ACK" THEN @ + 1 ELSE @]]
 
